@@ -252,11 +252,11 @@ def run_search(spec):
   case = L.materialise(spec['search'])
   k = case.kwargs['n_designs']
   viol = []
-  cls = ['search-case', 'n_designs=%d' % k]
+  cls = ['search-case', 'n_designs=%d' % k, 'history:%s' % spec['search'].get('history')]
   nt = False
   for method in ('exhaustive_search', 'greedy_search'):
     tag = method.split('_')[0]
-    res = L.run_search(case, method)
+    res = L.run_search(case, method, history=spec['search'].get('history'))
     if res[0] != 'ok':
       cls.append('%s:%s' % (tag, res[0]))
       continue
